@@ -128,7 +128,7 @@ PROPS['C03'] = {
     'parts': [{'src': 'harness/slist.cpp', 'prefix': 'C03/', 'variants': ['g17'], 'defs': ['VERIF_SUB=%d' % i]} for i in range(7)],
     'rule': 'stateless DFS over all schedules of generated configurations (2 threads x 1 op: all pairs; 3 threads x 1 op: triples with a traversal or two operations on the shared handle h1; 2 threads x 2 ops) over {append, prepend, insert before h1, remove h1, remove h2, ownsHandle h1, empty, invoke, forEach; dispatcher: + appendListener/dispatch/hasAnyListener on a second event created concurrently} on a shared initial list [0,1,2]; oracle: brute-force linearizability of all non-traversal calls + final order, per-traversal rules, destructive probe after join, deadlock, HB race detector on the map, ASan/UBSan; distinct = distinct per-execution outcome hashes; plus STATEFUL units (C03/all-interleavings/...): ALL interleavings of the same configurations without a preemption bound, pruned by a visited set over global states (list/map structure, mutex owners, per-thread operation index + observation hash into which the whole shared-structure hash is mixed at the start of every atomic block, recorded call results and their order)',
     'assumptions': S_ASSUME + ['CallbackList head/tail/links are ordinary memory: a removed lock shows through the mid-critical-section hook points as a lost update (behavioural oracle), not through the race detector'],
-    'bounds': {'quick': 'list+VMutex bound 2; SpinLock and dispatcher (std::map / std::unordered_map through the Map policy) bound 1; collision-rich subset of the 2x2 and 3x1 configurations; stateful units: all interleavings of 2-3 thread configurations, no preemption bound', 'thorough': 'bound 3 (list+VMutex) / 2 (others); all configurations; stateful units: further 3-thread configurations, no preemption bound'},
+    'bounds': {'quick': 'preemption bound 3 (list+VMutex) / 2 (SpinLock; dispatcher with std::map / std::unordered_map through the Map policy; wrap and faulting-append families); collision-rich subset of the 2x2 and 3x1 configurations, plus lists emptied by the removals and lists starting empty; stateful units: all interleavings of 2-3 thread configurations (wrap family: the 2-call configurations), no preemption bound', 'thorough': 'preemption bound 5 (list+VMutex) / 4 (SpinLock, dispatcher, wrap list) / 3 (SpinLock dispatcher, wrap dispatcher, faulting-append), one less for 3-thread configurations; all configurations; stateful units: further 3-thread configurations and the whole quick wrap set, no preemption bound'},
     'deadline': {'quick': 170, 'thorough': 1700},
 }
 
@@ -154,9 +154,9 @@ PROPS['C13'] = {
     'title': 'OrderedQueueList processes events in comparator order, stably, exactly once',
     'level': 'model_checking',
     'parts': split('harness/queue.cpp', 'C13/', 13, 4, ['g17'], ['g17O0']),
-    'rule': 'the C05 search with QueueList = OrderedQueueList and comparators ascending key / descending key / key mod 2 (large equivalence classes) over keys {1,2,3} with duplicates; the model keeps its deque stably sorted (declined events re-enter ahead of equal newer ones)',
+    'rule': 'complete enumeration of a family of WIDE queues (N pending events for every N up to the bound x key patterns with long runs of equal keys x every consuming form that re-sorts) against a stable-sort model; and the C05 search with QueueList = OrderedQueueList and comparators ascending key / descending key / key mod 2 (large equivalence classes) over keys {1,2,3} with duplicates; the model keeps its deque stably sorted (declined events re-enter ahead of equal newer ones)',
     'assumptions': H_ASSUME,
-    'bounds': {'quick': 'K=3 (4 for mod-2) pending, flat depth 5, nested budget 1 depth 4', 'thorough': 'flat to fixpoint (depth 20) for K=3; mod-2 classes with K=4 to depth 9; nested budget 2 depth 4'},
+    'bounds': {'quick': 'K=3 (4 for mod-2) pending, flat depth 5, nested budget 1 depth 4; wide family: N = 1..40 pending x 8 key patterns x 8 consuming forms x 3 comparators, complete', 'thorough': 'flat to fixpoint (depth 20) for K=3; mod-2 classes with K=4 to depth 9; nested budget 2 depth 4; wide family up to N = 96'},
 }
 PROPS['C08']['parts'] += split('harness/queue.cpp', 'C08/', 8, 2, ['g17'])
 PROPS['C08']['parts'] += [{'src': 'harness/faults.cpp', 'prefix': 'C08/', 'variants': ['g17'], 'quick_variants': ['g17O0'], 'defs': ['VERIF_PREFIX="C08/under-faults"', 'VERIF_SUB=%d' % i], 'only_sigs': 'leak|ledger|fatal'} for i in (0, 2, 4)]
